@@ -271,6 +271,8 @@ fn extend_object_clone_layer<'p>(layer: &ObjectLayer<'p>) -> ObjectLayer<'p> {
 
 pub(super) struct ThunkData<'p> {
     state: RefCell<ThunkState<'p>>,
+    #[cfg(rsjsonnet_verif)]
+    verif_id: u64,
 }
 
 impl GcTrace for ThunkData<'_> {
@@ -287,6 +289,8 @@ impl<'p> ThunkData<'p> {
     pub(super) fn new_done(value: ValueData<'p>) -> Self {
         Self {
             state: RefCell::new(ThunkState::Done(value)),
+            #[cfg(rsjsonnet_verif)]
+            verif_id: crate::verif::next_id(),
         }
     }
 
@@ -294,6 +298,8 @@ impl<'p> ThunkData<'p> {
     pub(super) fn new_pending_expr(expr: &'p ir::Expr<'p>, env: Gc<ThunkEnv<'p>>) -> Self {
         Self {
             state: RefCell::new(ThunkState::Pending(PendingThunk::Expr { expr, env })),
+            #[cfg(rsjsonnet_verif)]
+            verif_id: crate::verif::next_id(),
         }
     }
 
@@ -309,12 +315,16 @@ impl<'p> ThunkData<'p> {
                 field,
                 env,
             })),
+            #[cfg(rsjsonnet_verif)]
+            verif_id: crate::verif::next_id(),
         }
     }
 
     pub(super) fn new_pending_call(func: Gc<FuncData<'p>>, args: Box<[Gc<Self>]>) -> Self {
         Self {
             state: RefCell::new(ThunkState::Pending(PendingThunk::Call { func, args })),
+            #[cfg(rsjsonnet_verif)]
+            verif_id: crate::verif::next_id(),
         }
     }
 
@@ -326,6 +336,15 @@ impl<'p> ThunkData<'p> {
     #[inline]
     pub(crate) fn switch_state(&self) -> ThunkState<'p> {
         let mut state = self.state.borrow_mut();
+        #[cfg(rsjsonnet_verif)]
+        {
+            let code = state.verif_code();
+            crate::verif::emit(|| crate::verif::Event::ThunkSwitch {
+                id: self.verif_id,
+                from: code,
+                to: if code == 0 { 1 } else { code },
+            });
+        }
         match *state {
             ThunkState::Done(ref value) => ThunkState::Done(value.clone()),
             ThunkState::Pending(_) => std::mem::replace(&mut *state, ThunkState::InProgress),
@@ -336,6 +355,14 @@ impl<'p> ThunkData<'p> {
     #[inline]
     pub(super) fn set_done(&self, value: ValueData<'p>) {
         let mut state = self.state.borrow_mut();
+        #[cfg(rsjsonnet_verif)]
+        {
+            let code = state.verif_code();
+            crate::verif::emit(|| crate::verif::Event::ThunkDone {
+                id: self.verif_id,
+                was: code,
+            });
+        }
         assert!(matches!(*state, ThunkState::InProgress));
         *state = ThunkState::Done(value);
     }
@@ -353,6 +380,25 @@ pub(super) enum ThunkState<'p> {
     Done(ValueData<'p>),
     Pending(PendingThunk<'p>),
     InProgress,
+}
+
+#[cfg(rsjsonnet_verif)]
+impl ThunkState<'_> {
+    /// 0 pending, 1 in progress, 2 done
+    fn verif_code(&self) -> u8 {
+        match self {
+            Self::Pending(_) => 0,
+            Self::InProgress => 1,
+            Self::Done(_) => 2,
+        }
+    }
+}
+
+#[cfg(rsjsonnet_verif)]
+impl ThunkData<'_> {
+    pub(super) fn verif_id(&self) -> u64 {
+        self.verif_id
+    }
 }
 
 impl GcTrace for ThunkState<'_> {
